@@ -14,7 +14,8 @@ RULE = ("every set of entries after the leading host operator with, per correlat
         "on a stream, Event Sync / Context Sync on stream -1}, optionally a host op without correlation and a GPU "
         "annotation without correlation; x every file order (all permutations up to P entries, else identity, "
         "reversal, rotations) and x padding with metadata entries so that event ids exceed 127 / 255 / 32767 while "
-        "correlation ids stay small; checked after parse_trace_file and after load_traces. non-trivial = contains a "
+        "correlation ids stay small; plus a trimmed slice (2-3 profiler steps, launches at every position, so that the "
+        "loader drops events: links inside the loaded frame must stay mutual and point to present rows); checked after parse_trace_file and after load_traces. non-trivial = contains a "
         "linked pair and a missing partner or a stream -1 sync record")
 ASSUMPTIONS = [
     "well-formed trace: first entry is a host operator; a correlation id occurs at most once per side",
@@ -66,6 +67,7 @@ def orders(n: int, P: int) -> List[List[int]]:
 
 def worlds(tier: str, stats: Dict[str, Any]) -> Iterator[Any]:
     b = bounds(tier)
+    yield from trimmed_worlds(stats)
     for cs in b["corr_sets"]:
         c1, c2 = cs
         for h1, h2, d1, d2, hh, aa in itertools.product(HOST, HOST, DEV, DEV, (0, 1), (0, 1)):
@@ -89,10 +91,67 @@ def worlds(tier: str, stats: Dict[str, Any]) -> Iterator[Any]:
                            events=[kineto.cpu_op("aten::root", E0, 100, ext=0)] + ents)
 
 
+def trimmed_worlds(stats):
+    from mc.props import c12
+
+    lays = [l for l in c12.layouts() if len(l) >= 2][::2]
+    for lay in lays:
+        for p in range(10):
+            for delta in (1, 3):
+                stats["transitions"] += 1
+                yield dict(mode="trimmed", layout=lay, units=[["op", 0], ["launch", p, delta]])
+                if p in (1, 5, 9):
+                    stats["transitions"] += 1
+                    yield dict(mode="trimmed", layout=lay, units=[["op", 9], ["launch", p, delta], ["orphan", 3], ["esync", p]])
+
+
+def check_trimmed(world) -> Dict[str, Any]:
+    """links inside a frame from which the loader trimmed the trailing profiler step: every positive link must point to a
+    row that is present, on the other side, with the same correlation id, and point back"""
+    from hta.common.trace import Trace
+    from mc import htaenv
+    from mc.props import c12
+
+    viol: List[Any] = []
+    evs = c12.build(world["layout"], world["units"])
+    rows = {r["id"]: r for r in refmodel.parse_rows(evs)}
+    for inc in (False, True):
+        sc = htaenv.scratch()
+        d = sc.fresh()
+        try:
+            kineto.write_world(d, {0: evs}, "json")
+            t = Trace(trace_dir=d)
+            t.load_traces(include_last_profiler_step=inc, use_multiprocessing=False)
+            df = t.get_trace(0)
+        finally:
+            sc.drop(d)
+        got = {int(i): int(v) for i, v in zip(df.index, df["index_correlation"])}
+        tag = f"trimmed/include_last={inc}"
+        for i, g in got.items():
+            r = rows[i]
+            if r["corr"] == -1:
+                if g != -1:
+                    viol.append((f"{tag}/sentinel--1-expected", dict(id=i, got=g, world=world)))
+            elif g > 0:
+                if g not in got:
+                    viol.append((f"{tag}/link-to-row-absent-from-loaded-trace", dict(id=i, got=g, world=world)))
+                elif got[g] != i:
+                    viol.append((f"{tag}/link-not-mutual", dict(id=i, got=g, back=got[g], world=world)))
+                elif rows[g]["corr"] != r["corr"] or refmodel.is_device_side(rows[g]) == refmodel.is_device_side(r):
+                    viol.append((f"{tag}/linked-to-wrong-event", dict(id=i, got=g, world=world)))
+            elif g == 0:
+                partner = [q for q in got if q != i and rows[q]["corr"] == r["corr"] and refmodel.is_device_side(rows[q]) != refmodel.is_device_side(r)]
+                if partner:
+                    viol.append((f"{tag}/sentinel-0-although-partner-present", dict(id=i, partner=partner, world=world)))
+    return dict(viol=_dedupe(viol), nontrivial=len(world["layout"]) >= 2, outcome=("trimmed", len(world["layout"]), str(world["units"])), execs=2)
+
+
 def check(world) -> Dict[str, Any]:
     from hta.common.trace import Trace, parse_trace_file
     from mc import htaenv
 
+    if world.get("mode") == "trimmed":
+        return check_trimmed(world)
     viol: List[Any] = []
     evs = world["events"]
     if world.get("pad"):
